@@ -128,6 +128,19 @@ def rand_message(tb, rnd, t=None, shape=None):
     return buf
 
 
+def put_unavailable(tb, buf, t, only=None):
+    """what a station without a position fix transmits: every field of type t that has a 'not available' code
+    (or only those named) set to that code"""
+    itu = tb["itu"][enc.layout_key(t)]
+    for (tt, nm, na) in optional_fields(tb):
+        if tt != t or nm not in itu or (only is not None and nm not in only):
+            continue
+        off, w = itu[nm]
+        if off + w <= buf.n and not nm.startswith("offset"):
+            buf.put(off, w, na & ((1 << w) - 1))
+    return buf
+
+
 # ---------------------------------------------------------------------------
 def fam_corpus(tier):
     sc = Scenario()
@@ -154,18 +167,21 @@ def fam_fieldwalk(tier):
         sc.unit()
         itu = tb["itu"][enc.layout_key(t)]
         flds = shape_fields(tb, t, nbits, fixed)
-        for bgname in ("zero", "ones", "rand"):
+        has_na = any(tt == t for (tt, _, _) in optional_fields(tb))
+        for bgname in ("zero", "ones", "rand") + (("unavail",) if has_na else ()):
             for (nm, off, w) in flds:
                 if nm in fixed:
                     continue
                 for val in walk_values(w, rnd, full, nrand):
-                    if bgname == "rand":
+                    if bgname in ("rand", "unavail"):
                         buf = enc.BitBuf(nbits, rnd=rnd)
                     else:
                         buf = enc.BitBuf(nbits, 1 if bgname == "ones" else 0)
                     buf.put(0, 6, t)
                     for k, v in fixed.items():
                         buf.put(itu[k][0], itu[k][1], v)
+                    if bgname == "unavail":
+                        put_unavailable(tb, buf, t)
                     buf.put(off, w, val)
                     emit(sc, buf, "D")
                     if bgname == "rand" and (val & 3) == 1:
@@ -183,6 +199,10 @@ def fam_random_messages(tier, n_q=3000, n_t=60000, tag="randmsg"):
         if i % 500 == 0:
             sc.unit()
         buf = rand_message(tb, rnd, shape=S[i % len(S)])
+        if i % 11 == 7:
+            put_unavailable(tb, buf, S[i % len(S)][0])
+        elif i % 11 == 3:
+            put_unavailable(tb, buf, S[i % len(S)][0], only=("longitude", "latitude"))
         emit(sc, buf, "D" if i % 3 else "L")
         if i % 9 == 4:
             emit_group(sc, buf, rnd)
@@ -358,6 +378,25 @@ def fam_checksum(tier):
                 m = bytearray(good)
                 m[pos] = rnd.randrange(256)
                 sc.line(bytes(m), 0, 0)
+    # the gate does not remember: a line is checked on its own bytes whatever was presented before, with
+    # whatever decode flag, in the same (reused) read buffer - same length, same transmitted value, other bytes
+    for bi, kw in enumerate(base_sentences(rnd, 60 if thorough else 8)):
+        good = nmea.line(**kw)
+        star = good.rindex(b"*")
+        for a in (0, 1):
+            for b in (0, 1):
+                sc.unit()
+                sc.new(0)
+                for rep in range(3):
+                    m = bytearray(good)
+                    pos = rnd.randrange(good.index(b",") + 1, star)
+                    m[pos] ^= 1 << rnd.randrange(6)
+                    if m[pos] in (44, 42, 10, 13) or bytes(m) == good:
+                        continue
+                    sc.line(good, 0, a)
+                    sc.line(bytes(m), 0, b)
+                    sc.line(good, 0, b)
+                    sc.line(bytes(m), 0, a)
     # long lines: the whole body is covered, however long it is
     for plen in (300, 379, 380, 385, 420, 700, 1500):
         sc.unit()
@@ -603,6 +642,24 @@ def fam_fields(tier):
         both(nmea.line(n=2, k=1, sid=5, payload=b"15M"))
         both(nmea.line(n=2, k=2, sid=v, payload=b"15M"))
         both(nmea.line(n=2, k=2, sid=5, payload=b"15M"))
+    # sentences numbered outside 1 <= k <= n (what they count as is not specified; what they report is): on an
+    # idle parser, after a delivery, after an abandoned group, with and without a sequence id
+    odd = [(0, 1), (0, 0), (1, 0), (1, 2), (2, 3), (3, 200), (255, 255), (0, 2), (2, 0)]
+    for hist in ("idle", "delivered", "abandoned"):
+        for sid in (None, 4):
+            sc.unit()
+            sc.new(0)
+            sc.new(1)
+            for (n, k) in odd:
+                if hist == "delivered":
+                    both(nmea.line(n=2, k=1, sid=sid, payload=rand_armor(rnd, 6)))
+                    both(nmea.line(n=2, k=2, sid=sid, payload=rand_armor(rnd, 6)))
+                elif hist == "abandoned":
+                    both(nmea.line(n=3, k=1, sid=sid, payload=rand_armor(rnd, 6)))
+                    both(nmea.line(n=3, k=2, sid=sid, payload=rand_armor(rnd, 6)))
+                pay, fill = valid_payload()
+                both(nmea.line(n=n, k=k, sid=sid if k != 1 else rnd.choice([sid, None]), payload=pay, fill=fill))
+                both(nmea.line(payload=b"15M67FC000G?ufbE`FepT@3n00Sa"))
     # one long group: fragment numbers 1..255 (and counts up to 255)
     for big in ([255, 40] if thorough else [255]):
         sc.unit()
@@ -945,12 +1002,16 @@ def fam_enums(tier):
             base = (24, 168, {"part_number": 1})
         else:
             base = shape_of(t)
-        for bg in ("zero", "ones", "rand"):
+        for bg in ("zero", "ones", "rand", "unavail", "nopos"):
             for v in range(1 << w):
-                buf = enc.BitBuf(base[1], 1 if bg == "ones" else 0) if bg != "rand" else enc.BitBuf(base[1], rnd=rnd)
+                buf = enc.BitBuf(base[1], 1 if bg == "ones" else 0) if bg in ("zero", "ones") else enc.BitBuf(base[1], rnd=rnd)
                 buf.put(0, 6, t)
                 if t == 24 and nm != "part_number":
                     buf.put(38, 2, 1)
+                if bg == "unavail":
+                    put_unavailable(tb, buf, t)
+                elif bg == "nopos":
+                    put_unavailable(tb, buf, t, only=("longitude", "latitude"))
                 buf.put(off, w, v)
                 emit(sc, buf, "D")
                 if bg == "rand" and v % 4 == 0:
@@ -1022,6 +1083,24 @@ def fam_decode_history(tier, only_types=None):
             if cut > 0:
                 sc.line(nmea.line(payload=pay[:cut], fill=0), 0, 1)
                 emit(sc, good, "L")
+        # ... nor does the sentence path: a payload that stops being armored data part-way (all bits set up to
+        # there) leaves nothing behind for the next sentence - the same message, an all-zero one, and one whose
+        # optional fields all carry their 'not available' codes
+        itu = tb["itu"][enc.layout_key(s[0])]
+        zero = enc.BitBuf(s[1], 0)
+        zero.put(0, 6, s[0])
+        for k, v in s[2].items():
+            zero.put(itu[k][0], itu[k][1], v)
+        una = put_unavailable(tb, rand_message(tb, rnd, shape=s), s[0])
+        for badpos in sorted({1, len(pay) // 2, len(pay) - 1}):
+            if badpos <= 0:
+                continue
+            bad = bytearray(b"w" * len(pay))
+            bad[0] = pay[0]
+            bad[badpos] = rnd.choice(b"XY_xz~ ")
+            for follow in (good, zero, una):
+                sc.line(nmea.line(payload=bytes(bad), fill=0), 0, 1)
+                emit(sc, follow, "L")
     return sc
 
 
@@ -1239,6 +1318,15 @@ def fam_radio(tier):
         sc.unit()
         for sel in ((0, 1) if t in (9, 18) else (rnd.randrange(2),)):
             for pre in (0, 1):
+                # one message whose communication state alone is varied: whether it decodes at all must not
+                # depend on the state (twin, mode `kind`)
+                base = enc.BitBuf(168, rnd=rnd)
+                base.put(0, 6, t)
+                base.put(147, 1, pre)
+                base.put(148, 1, sel if t in (9, 18) else pre)
+                base.put(149, 19, 0)
+                key = "r%d-%d-%d" % (t, sel, pre)
+                sc.decode(base.bytes(), tag="A:" + key)
                 for sync in range(4):
                     for to in range(8):
                         for sv in subvals:
@@ -1250,6 +1338,10 @@ def fam_radio(tier):
                             buf.put(151, 3, to)
                             buf.put(154, 14, sv)
                             emit(sc, buf, "D")
+                            base.put(149, 2, sync)
+                            base.put(151, 3, to)
+                            base.put(154, 14, sv)
+                            sc.decode(base.bytes(), tag="B:%s:C16:kind:only-the-communication-state-differs" % key)
         for _ in range(4000 if thorough else 300):
             buf = enc.BitBuf(168, rnd=rnd)
             buf.put(0, 6, t)
@@ -1269,8 +1361,11 @@ def fam_radio_exhaustive(tier):
         for v in range(0, 1 << bits, stride):
             if v % 4096 == 0:
                 sc.unit()
+                base.put(168 - bits, bits, 0)
+                key = "x%d-%d" % (t, v // 4096)
+                sc.decode(base.bytes(), tag="A:" + key)
             base.put(168 - bits, bits, v)
-            sc.decode(base.bytes())
+            sc.decode(base.bytes(), tag="B:%s:C16:kind:only-the-communication-state-differs" % key)
     return sc
 
 
